@@ -7,7 +7,7 @@ import GoomVerif.Model.Var
   op, joined by ` ; `: `<outcome>|<var>=<val>,…|<canceled flag of every handle>|<pkgName of builders 0 and 1: 0 = caller's package, p = Pkg(p)>`.
 * `c08.asg <value type> <variable type>` — `Var.assignable` on the type table (tie for the table itself).
 
-Variables are named `<type>` or `<type>2`; values are `nil` or `<type>:<rep>`. -/
+Variables are named `<type>`, `<type>2` or `x<type>` (a variable of another package); values are `nil` or `<type>:<rep>`. -/
 namespace Drv.C08
 open Var
 
@@ -51,7 +51,10 @@ def tyName (t : Ty) : String :=
 def varTy (v : String) : Option Ty :=
   match tyOf v with
   | some t => some t
-  | none => if v.endsWith "2" then tyOf (String.ofList v.toList.dropLast) else none
+  | none =>
+    if v.endsWith "2" then tyOf (String.ofList v.toList.dropLast)
+    else if v.startsWith "x" then tyOf (String.ofList (v.toList.drop 1))     -- `xint`: the variable of the other package
+    else none
 
 def parseVal (s : String) : Option Boxed :=
   if s == "nil" then some none else
